@@ -9,7 +9,8 @@ props = {json.loads(l)['id']: json.loads(l) for l in open(os.path.join(V, 'prope
 prior = {k: [] for k in props}
 for l in open(os.path.join(V, 'DESIGN.md')):
     m = re.match(r'\| (C\d\d)(-[a-z])? \| (.*?) \| (.*?) \|', l)
-    if m and m.group(1) in prior and not m.group(3).startswith('see '):
+    # rows of the seeded-change tables only: the theorem table (0.2) and the section-6 status table have the same first column
+    if m and m.group(1) in prior and not m.group(3).startswith('see ') and not re.search(r'Proofs/|Model/|Props/|Corr/|∀|theorem|correspondence', l):
         prior[m.group(1)].append("- %s (needed: %s)" % (m.group(3), m.group(4)))
 ANGLES = [
  "the way arguments are passed or typed (keyword vs positional, int vs float vs Fraction vs numpy scalar vs str vs bool, tuple vs list vs generator, subclass instances, default arguments, None)",
